@@ -14,10 +14,10 @@ NOT_APPLICABLE = {
 # id -> dict(technique, text (what assurance), note (assumed / not decided), design_ref)
 CLAIMED = {
     "C25": dict(
-        technique="MIR dominance (guard edges, success edges) + backward data-dependence slices + who-may-write table",
+        technique="MIR dominance (guard edges, success edges) + backward data-dependence slices + who-may-write table + callers-leave-no-trace reachability",
         text="Partial, strong: on every CFG path of apply_ticket/apply_signed_ticket each state mutation is dominated by the strict sequence guard, "
              "and (signed) by signature success over exactly the ticket's own fields, memory-id equality and binding presence; Ok only after "
-             "rewrite_toc_footer -> persist_header -> sync_all; writers of TicketRef.seq_no are a reviewed table. All-paths fact about the code, not a sample of tickets.",
+             "rewrite_toc_footer -> persist_header -> sync_all; writers of TicketRef.seq_no are a reviewed table. All-paths fact about the code, not a sample of tickets. Callers of the ticket entry points store no persisted state before the (fallible) ticket call.",
         note="Not decided: Ed25519/serde_json themselves (external crates trusted), value-level history behaviour. Every CFG path treated as feasible.",
         design_ref="DESIGN.md §4 C25"),
     "C12": dict(
@@ -29,24 +29,24 @@ CLAIMED = {
         note="Not decided: value-level set matching of principals/roles/groups and string normalisation. Callee summaries for 'grows the hit list' are bounded to depth 2.",
         design_ref="DESIGN.md §4 C12"),
     "C05": dict(
-        technique="MIR guard-edge dominance + interprocedural caller-chain check for constant-0 ring positions; must-pass-through; field-set agreement",
+        technique="MIR guard-edge dominance + interprocedural caller-chain check for constant-0 ring positions; must-pass-through; field-set agreement + strict guard relation for the sentinel slot",
         text="Partial: the ring invariants the WAL code relies on are decided on all paths - a ring position becomes 0 only where pending_bytes == 0 is established "
              "(in the function or at every caller), an append writes only after both capacity comparisons and is always followed by the sentinel, a checkpoint stores "
-             "exactly the reviewed fields from write_head/sequence, scan reports a record only after checksum equality and bounds, records_after filters strictly by sequence.",
+             "exactly the reviewed fields from write_head/sequence, scan reports a record only after checksum equality and bounds, records_after filters strictly by sequence. The zero sentinel is written only where pending_bytes < region_size (a full ring has no free slot).",
         note="Not decided: the exhaustive state-space claim over operation sequences and sizes (value reasoning). The rule found a genuine defect on the pinned tree (sentinel wrap), repaired by fix commit f7468a8.",
         design_ref="DESIGN.md §4 C05"),
     "C01": dict(
         technique="MIR must-pass-through (success-edge dominance of Ok exits) + who-may-call tables over the call graph + sign-abstraction direction analysis of in-place block-move loops",
         text="Partial (protocol skeleton): on every path an acknowledged put/update/delete is dominated by a successful WAL append; the log window "
              "(record_checkpoint) moves only after apply_records succeeded on the WAL's own pending records, at the reviewed call sites only; open returns "
-             "Ok only after recover_wal replayed records_after(header.wal_sequence); drop commits on the dirty edge and every acknowledged append sets dirty; the in-place block move that shifts committed bytes when the WAL grows walks away from its destination (memmove direction rule).",
+             "Ok only after recover_wal replayed records_after(header.wal_sequence); drop commits on the dirty edge and every acknowledged append sets dirty; the in-place block move that shifts committed bytes when the WAL grows walks away from its destination (memmove direction rule). WAL append sites are recognised through thin wrappers.",
         note="Not decided: equality with a reference model over histories (runtime values), content fidelity across in-place WAL growth.",
         design_ref="DESIGN.md §4 C01"),
     "C03": dict(
-        technique="interprocedural sync typestate (write=>unsynced, fsync=>clean; bottom-up summaries to a fixpoint over 650+ functions) + ordering dominance",
+        technique="interprocedural sync typestate (write=>unsynced, fsync=>clean; bottom-up summaries to a fixpoint over 650+ functions) + ordering dominance + ordered growth-protocol rule (shift, adjust, rewrite TOC, persist header, sync)",
         text="Partial (sync-before-ack): every acknowledging function (put, delete, commit variants, tickets, vacuum, WAL growth, create, open-time replay) "
              "returns Ok only in the clean state on all paths; the staging file is clean at the rename; write_record's only deferral is the skip_sync edge whose "
-             "protocol (set only by begin/end_batch, flush before clearing) is checked; the header is published only after the TOC/footer was written and synced.",
+             "protocol (set only by begin/end_batch, flush before clearing) is checked; the header is published only after the TOC/footer was written and synced. A WAL growth on behalf of an acknowledged put rewrites the TOC with the adjusted offsets, persists the header and syncs before it returns.",
         note="Not decided: torn writes, directory durability inside atomic-write-file (trusted), whether the file opens after loss. Reviewed exemption: the WAL end sentinel. "
              "recover_wal's empty-log branch (re-derivable Tantivy flush) is out of scope by rule.",
         design_ref="DESIGN.md §4 C03"),
@@ -67,31 +67,31 @@ CLAIMED = {
         note="Not decided: equality of next_frame_id() with the id later assigned across auto-checkpoints and reopen (value reasoning over histories).",
         design_ref="DESIGN.md §4 C06"),
     "C08": dict(
-        technique="MIR must-pass-through with edge cuts (apply_records), sibling agreement of the two mark_* functions, index-field coverage table, crate-wide feeder scan, PutOptions->WAL data-flow agreement",
+        technique="MIR must-pass-through with edge cuts (apply_records), sibling agreement of the two mark_* functions, index-field coverage table, crate-wide feeder scan, PutOptions->WAL data-flow agreement + gate-condition field coverage + per-chain feed guards",
         text="Partial: delete/supersede both store a non-Active status and reach remove_frame_from_indexes on every Ok path, which purges every in-memory index the "
              "search paths read; apply_records cannot push a superseding frame, nor consume a tombstone, without marking the old frame; every function that walks "
-             "toc.frames and feeds an index tests FrameStatus::Active; the PutOptions data fields persisted by put_internal are compared with those update_frame inherits.",
+             "toc.frames and feeds an index tests FrameStatus::Active; the PutOptions data fields persisted by put_internal are compared with those update_frame inherits. The condition gating rebuild_indexes after apply_records depends on IngestionDelta.mutated_frames; every iterator chain over toc.frames that feeds an index has an Active test of its own.",
         note="Not decided: what search/timeline return (values). Known finding (open): update_frame does not inherit role/source_path/parent_id.",
         design_ref="DESIGN.md §4 C08"),
     "C11": dict(
-        technique="flow- and field-sensitive def-use analysis of the candidate-filter variable in Memvid::search (found by type/use) + edge-cut reachability in get_replay_frame_ids + dead-parameter check in the three engines",
+        technique="flow- and field-sensitive def-use analysis of the candidate-filter variable in Memvid::search (found by type/use) + edge-cut reachability in get_replay_frame_ids + dead-parameter check in the three engines + edge-cut reachability of the replay step in Memvid::search",
         text="Partial, strong: after the replay stage the candidate filter can only narrow (every redefinition in the Some(existing) arm derives from existing), the replay "
              "ids reach the filter in both arms and all three engine paths receive and use that filter; get_replay_frame_ids pushes frame.id only past "
-             "(cut-off None | frame.id <= cut-off) and (None | frame.timestamp <= cut-off), never through a binary search on a non-id key.",
+             "(cut-off None | frame.id <= cut-off) and (None | frame.timestamp <= cut-off), never through a binary search on a non-id key. The engines are reachable without get_replay_frame_ids only through the edge establishing as_of_ts is None.",
         note="Not decided: what the engines return beyond honouring the filter. The rule found a genuine defect (sketch-only fallback dropped the replay filter), repaired by fix commit 321ffd9.",
         design_ref="DESIGN.md §4 C11"),
     "C10": dict(
-        technique="MIR edge-cut reachability (acceptance only on the evaluate-true edge), guard dominance (top_k), data-dependence agreement of slice bounds and range",
+        technique="MIR edge-cut reachability (acceptance only on the evaluate-true edge), guard dominance (top_k), data-dependence agreement of slice bounds and range + unit rule (character offsets vs byte offsets)",
         text="Partial: on each of the three engine paths a candidate is accepted only on the true edge of ParsedQuery::evaluate over an EvaluationContext built for it, request.uri / "
              "request.scope reach the producer's filter or a comparison on the Tantivy and lex paths, a SearchHit is pushed only while hits.len() is below top_k with rank from hits.len(), "
-             "and hit.text is sliced with the same two bounds, in order, that form hit.range.",
+             "and hit.text is sliced with the same two bounds, in order, that form hit.range. No character offset (TextChunkRange) flows into a byte offset (ChunkInfo.start/end, SearchHit.range/chunk_range).",
         note="Not decided: that the text satisfies the query semantics, that the frame is active (index membership is C08), byte equality of text with the stored content. "
              "Untriaged candidate (not armed): search_with_filters_only ignores request.uri/scope and frame status, but is only reachable when the Tantivy engine errors.",
         design_ref="DESIGN.md §4 C10"),
     "C16": dict(
-        technique="explicit-flow non-interference (flow- and field-sensitive backward slices) from request.cursor to total_hits and to the candidate producer",
+        technique="explicit-flow non-interference (flow- and field-sensitive backward slices) from request.cursor to total_hits and to the candidate producer + flow-shape rule for the candidate budget",
         text="Partial (cursor non-interference): on each engine path request.cursor must not flow into SearchResponse.total_hits nor into the arguments of the candidate producer; "
-             "the page offset is parse_cursor(request.cursor, the reported total). Decided for explicit flows on all paths.",
+             "the page offset is parse_cursor(request.cursor, the reported total). Decided for explicit flows on all paths. The page size reaches the sketch candidate budget only through max(_, const), never through min.",
         note="Not decided: equality of the concatenated pages with the one-shot result; implicit (control) flows such as the `produced < offset` skipping. "
              "Known findings (open): on the Tantivy path the fetch limit depends on the cursor, so total_hits and the ranked list differ per page.",
         design_ref="DESIGN.md §4 C16"),
@@ -137,22 +137,22 @@ CLAIMED = {
     "C14": dict(
         technique="enum-arm payload-use analysis vs call-graph reachability of each representation's builder (per configuration) + data-flow wiring of build_vec_artifact / update_frame / apply_records",
         text="Partial: a VecIndex representation whose entries/embedding_for/remove arms ignore the payload must have no builder reachable from the Memvid API in the analysed "
-             "configuration; build_vec_artifact = active(existing entries) + new docs and its result is installed; updates carry the old embedding; apply_records records the embedding under the pushed id. Reachable representations are derived from the VecIndex::<Variant> constructions reachable from the API.",
+             "configuration; build_vec_artifact = active(existing entries) + new docs and its result is installed; updates carry the old embedding; apply_records records the embedding under the pushed id. Reachable representations are derived from the VecIndex::<Variant> constructions reachable from the API. build_vec_artifact answers None only where vectors are disabled (rebuild_indexes keeps the old manifest on None).",
         note="Not decided: membership over histories (values). Thorough tier also analyses the `wide` feature configuration, where the Hnsw representation is reachable (known finding, config=wide).",
         design_ref="DESIGN.md §4 C14"),
     "C07": dict(
-        technique="variant-table agreement of the canonical codec pair, edge-cut must-pass-through for the length test, sort-key agreement, provenance data-flow of chunk manifests, seek-before-read pairing on File handles (shared cursor discipline)",
+        technique="variant-table agreement of the canonical codec pair, edge-cut must-pass-through for the length test, sort-key agreement, provenance data-flow of chunk manifests, seek-before-read pairing on File handles (shared cursor discipline) + fallback-only guard for the extracted-text plan",
         text="Partial (codec pairing and provenance): every CanonicalEncoding produced is decoded by its inverse callee, stored-payload reads return only past the canonical_length "
              "equality test, a chunked document's canonical payload is the concatenation of its children ordered by (chunk_index, id), and a chunk manifest that replaces the "
              "stored payload on read must derive from the payload bytes themselves; every std Read call on a File is dominated by a seek on the handle in the same function "
-             "(cloned handles share one cursor).",
+             "(cloned handles share one cursor). The chunk plan cut from extracted text is computed only where the payload's own plan is None.",
         note="Not decided: byte equality of reads with puts (values), text normalisation. Known finding (open): chunk manifests planned from extracted (lossy) text make the "
              "canonical payload of a large non-UTF-8 document differ from the stored bytes.",
         design_ref="DESIGN.md §4 C07"),
     "C15": dict(
-        technique="sortedness typestate (forward dataflow) of the timeline entry vector + closure comparator analysis + writer/reader order-key agreement",
+        technique="sortedness typestate (forward dataflow) of the timeline entry vector + closure comparator analysis + writer/reader order-key agreement + per-chain Active guard for time-index producers",
         text="Partial: the entry vector of build_timeline is in the sorted state wherever it is reversed, binary-searched or consumed; since/until are inclusive per-entry "
-             "comparisons applied before reverse and take(limit); append_track sorts by (timestamp, frame_id) and read_track validates that very order.",
+             "comparisons applied before reverse and take(limit); append_track sorts by (timestamp, frame_id) and read_track validates that very order. Every toc.frames chain producing time-index entries tests Active in that chain.",
         note="Not decided: completeness (every active document frame exactly once). The rule found a genuine defect (unsorted vector consumed), repaired by fix commit f554041.",
         design_ref="DESIGN.md §4 C15"),
     "C20": dict(
@@ -169,17 +169,17 @@ CLAIMED = {
         note="Not decided: round-trip equality for arbitrary values; bincode/serde themselves (external).",
         design_ref="DESIGN.md §4 C30"),
     "C17": dict(
-        technique="forward typestate (which inode Memvid.lock is held on) over every exit, Ok or Err, of functions that rename over the memory path + constructor pairing / who-may-unlock tables + guard-edge checks on lock mode changes",
+        technique="forward typestate (which inode Memvid.lock is held on) over every exit, Ok or Err, of functions that rename over the memory path + constructor pairing / who-may-unlock tables + guard-edge checks on lock mode changes + mode-claim typestate inside FileLock",
         text="Partial: wherever the file at the memory's path is replaced by rename, every exit after the rename holds a FileLock acquired on the staged/re-opened inode (in a mode that excludes writers) and every exit "
              "without the rename still holds (or has restored) the original lock; every constructor pairs file and lock from one acquisition; the OS unlock happens only inside FileLock; the exclusive lock is given up only when "
-             "nothing is dirty or pending; read_only is cleared only after a successful upgrade.",
+             "nothing is dirty or pending; read_only is cleared only after a successful upgrade. Inside FileLock a lock mode is stored only after the locking call succeeded.",
         note="Not decided: interleavings of two processes, flock semantics of the platform (fs2 trusted). The rule found a genuine defect (lock left on the pre-rename inode), repaired by fix commits 0f828e2 and e6dc2cd (the second keeps readers admitted: shared mode).",
         design_ref="DESIGN.md §4 C17"),
     "C18": dict(
-        technique="interprocedural effect analysis: reachability of memory-file writes from 146 public entry points without passing a writability guard (guard-establishing callees summarised to a fixpoint over ~1480 functions) + call-graph exclusion for the snapshot path",
+        technique="interprocedural effect analysis: reachability of memory-file writes from 146 public entry points without passing a writability guard (guard-establishing callees summarised to a fixpoint over ~1480 functions) + call-graph exclusion for the snapshot path + drop-commit flag reachability from read paths",
         text="Partial (effect discipline): from every public Memvid self-method and read-only constructor no write to the memory file is reachable before the success edge of a "
              "writability guard; the read-only snapshot open cannot reach WAL replay, takes its TOC from the tail snapshot, opens the WAL read-only and is constructed read_only; "
-             "every writing EmbeddedWal method passes assert_writable.",
+             "every writing EmbeddedWal method passes assert_writable. Drop commits only on handle state that no read-only constructor or read API can set.",
         note="Not decided: byte equality of the file before/after (runtime). Fix commit for the header rewrite on read-only open is recorded in known_findings. Untriaged candidates "
              "(reported, not verdicts): footer realignment reachable from search/open_read_only via init_tantivy; begin_batch writes without a guard.",
         design_ref="DESIGN.md §4 C18"),
@@ -249,7 +249,7 @@ CLAIMED = {
     "C29": dict(
         technique="sibling agreement between unlock_file_oneshot and unlock_file_stream (size/magic validation before Ok), writer/reader agreement of nonce derivation and chunk framing, dominance of decrypt success before plaintext write, header field coverage; configuration `encryption`",
         text="Partial: both unlock siblings reach Ok only past a comparison of the produced size with header.original_size; lock and unlock derive chunk nonces and frame chunks identically; "
-             "plaintext is written only after the chunk authenticated; output goes through write_atomic; every header field written is read or validated.",
+             "plaintext is written only after the chunk authenticated; output goes through write_atomic; every header field written is read or validated. The size comparison precedes the publication of the output (inside the closure write_atomic commits on, or before the write_atomic call).",
         note="Not decided: AES-GCM/Argon2, byte equality of unlock(lock(f)). The sibling rule found a genuine defect (streaming unlock accepted a capsule truncated at a chunk boundary), "
              "repaired by fix commit d0b37d1. Untriaged candidate: streaming sibling does not validate the MV2 magic.",
         design_ref="DESIGN.md §4 C29"),
